@@ -978,6 +978,15 @@ def r16(ctx):
 
 
 def run(ctx):
+    import rules.common as _cms
+    ctx.rule('C14.R19', 'a failure reported as -1 stays negative: in the sources of this property the result of a POSIX call that reports errors as -1 (read, write, recv, send, poll, open, socket, ioctl, ...) is not converted to an unsigned type where it is stored or tested (equality with the requested length excepted) - held in a size_t a failed read counts as SIZE_MAX received bytes, the buffered length runs past the 32 byte receive buffer and the decoder reads far beyond it', minimum=8)
+    _cms.signed_result_rule(ctx, 'C14.R19', lambda f: f.relfile.startswith(('src/lib/ebus/transport.',)), 8)
+    import rules.common as _cmw
+    ctx.rule('C14.R18', 'a 64 bit key or time stays 64 bit: where the sources of this property call a repository function declared to return uint64_t (message and answer keys, the millisecond clock), the result is not converted implicitly to a narrower integer at the call - a key held in an unsigned int loses ID length, source, destination and command bytes and never matches a stored key again', minimum=3)
+    _cmw.wide_result_rule(ctx, 'C14.R18', lambda f: f.relfile.startswith(('src/lib/ebus/device',)), 3)
+    import rules.common as _cm
+    ctx.rule('C14.R17', "a value is compared with a constant in the domain of its own type: in the sources of this property every comparison of a variable, member, element or call result with an integer constant (==, !=) has the constant inside the value range of the operand's own integer type before promotion - a symbol held in a signed char never equals 0xA9/0xAA/0xFE, so the escape, SYN or broadcast test behind it is dead for exactly the symbols it exists for", minimum=20)
+    _cm.compare_domain_rule(ctx, 'C14.R17', lambda f: f.relfile.startswith(('src/lib/ebus/device', 'src/lib/ebus/transport.')), 20)
     r16(ctx)
     r15(ctx)
     r12(ctx)
